@@ -453,7 +453,7 @@ def equality_gates(fn, ty_rx=r"setsum::Setsum"):
                 name = s["callee"].rsplit("::", 1)[-1]
                 negs = sum(1 for x in cond_sources(fn, b.idx) if x["k"] == "un" and x["op"] == "Not")
                 # label taken when the call returned false is sw:0
-                false_lab, true_lab = "sw:0", "otherwise"
+                false_lab, true_lab = "sw:0", "sw:1"
                 if negs % 2:
                     false_lab, true_lab = true_lab, false_lab
                 differ = false_lab if name == "eq" else true_lab
